@@ -56,7 +56,7 @@ type c06SweepRT struct {
 	coll      *c06Sim
 	failAt    int // global request number to fail (-1 none)
 	cutIndex  bool
-	failMode  int    // 0: 500; 2: transport error; 3: 404; 4: 503 with a non-JSON body; 5: 200 with an unexpected body
+	failMode  int    // 0: 500; 2: transport error; 3: 404; 4: 503 with a non-JSON body; 5: 200 with an unexpected body; 6: 200 with an empty body
 	srvRO     []bool // per service: read_only in the keep_services list
 	nreq      int
 	seenDD    bool
@@ -178,6 +178,10 @@ func (rt *c06SweepRT) RoundTrip(req *http.Request) (*http.Response, error) {
 		case 5:
 			if req.Method == "GET" {
 				return mk(200, `<html>this is not the expected document</html>`)
+			}
+		case 6:
+			if req.Method == "GET" {
+				return mk(200, ``) // status 200, the body is cut before its first byte
 			}
 		}
 		return mk(500, `{"errors":["injected"]}`)
@@ -454,6 +458,11 @@ func TestVerifC06Sweep(t *testing.T) {
 			rm := vCaseRand(seed, conf*1000+k+500)
 			rt1, err1 := run(k, false, 2+rm.Intn(4))
 			emit(rt1, err1, k, false)
+			if rt.failedReq != "" && !strings.HasPrefix(rt.failedReq, "QPull") && !strings.HasPrefix(rt.failedReq, "QTrash") && !strings.HasPrefix(rt.failedReq, "QClearTrash") {
+				// every GET of a sweep is also answered once with status 200 and no body at all
+				rt3, err3 := run(k, false, 6)
+				emit(rt3, err3, k, false)
+			}
 			if rt.failedReq != "" && strings.HasPrefix(rt.failedReq, "QIndex") {
 				rt2, err2 := run(k, true, 0)
 				emit(rt2, err2, k, true)
